@@ -301,6 +301,34 @@ func cmdTlog(o opts) {
 		}
 	}
 	var wg sync.WaitGroup
+	// beside them, other logs of the same process fail: two goroutines keep writing to logs whose sink refuses the first or
+	// the second write (not judged here - the sequential family does that): what they go through must not reach the others
+	stopFailers := make(chan struct{})
+	var fwg sync.WaitGroup
+	for g := 0; g < 2; g++ {
+		fwg.Add(1)
+		ent := genEntry(r, nil, com, ix, small)
+		go func(g int) {
+			defer fwg.Done()
+			for k := 0; ; k++ {
+				select {
+				case <-stopFailers:
+					return
+				default:
+				}
+				fw := &failWriter{failAt: 1 + (g+k)%2}
+				w := &tlog.Writer{ByteWriter: fw}
+				if err := w.Initialize(); err != nil {
+					return
+				}
+				func() {
+					defer func() { recover() }()                                            //nolint:errcheck
+					w.Write(&tlog.Entry{Time: time.Unix(ent.sec, 0), Frame: ent.goFrame()}) //nolint:errcheck
+				}()
+				time.Sleep(50 * time.Microsecond)
+			}
+		}(g)
+	}
 	for i := range logs {
 		wg.Add(1)
 		go func(lg *concLog) {
@@ -331,6 +359,8 @@ func cmdTlog(o opts) {
 		}(&logs[i])
 	}
 	wg.Wait()
+	close(stopFailers)
+	fwg.Wait()
 	for i := range logs {
 		rec.Put(M{"e": "TLOGW", "dl": []int{}, "entries": logs[i].es, "fail_at": 0, "bad_at": -1, "concurrent": nconc})
 	}
